@@ -55,6 +55,8 @@ pub struct StepRecord {
     /// per target: (op, first index, count) of the workload operations seen (for fault resolution)
     pub ops: BTreeMap<String, Vec<(String, i64, i64)>>,
     pub param_key_order: Option<String>,
+    #[serde(default)]
+    pub multi_thread_io: bool,
 }
 
 #[derive(Serialize, Deserialize, Clone, Debug, Default, PartialEq)]
@@ -103,6 +105,10 @@ pub struct Probes {
     pub lenient_reader_accepted: u64,
     #[serde(default)]
     pub hand_edited_file_refused: u64,
+    #[serde(default)]
+    pub multi_thread_io_steps: u64,
+    #[serde(default)]
+    pub faults_not_aimed_multi_thread_io: u64,
 }
 
 #[derive(Serialize, Deserialize, Clone, Debug, Default, PartialEq)]
@@ -958,6 +964,24 @@ pub fn run_pass(ctx: &Ctx, sc: &Scenario, inject: bool) -> PassResult {
             .into_iter()
             .filter(|l| rec.threads == 0 || !(l.starts_with("getrandom") || l.starts_with("pthread_create")))
             .collect();
+        // several threads of the step did workload I/O (e.g. a background writer): the order of the
+        // log is then not the simulator's doing; keep it order-insensitive for the record
+        rec.multi_thread_io = rec.events.iter().any(|l| l.starts_with("multi-thread-io"));
+        if rec.multi_thread_io {
+            res.probes.multi_thread_io_steps += 1;
+            let mut ev: Vec<String> = rec.events.iter().map(|l| {
+                // drop the per-kind operation index ("write#12" -> "write")
+                let mut t: Vec<String> = l.split(' ').map(|x| x.to_string()).collect();
+                if let Some(h) = t.first_mut() {
+                    if let Some(p) = h.find('#') {
+                        h.truncate(p);
+                    }
+                }
+                t.join(" ")
+            }).collect();
+            ev.sort();
+            rec.events = ev;
+        }
         rec.fired = fired_faults(&child.events);
         // stdout may echo a path of the scratch directory (whose name contains a pid): normalised
         // for the record, never for the oracles
@@ -1379,6 +1403,10 @@ pub fn resolve_faults(sc: &Scenario, strict: &PassResult) -> Scenario {
             Some(r) => r,
             None => continue,
         };
+        if rec.multi_thread_io {
+            // operation indices are not reproducible when several threads share the I/O
+            continue;
+        }
         if let Some(n) = abs {
             let total: i64 = rec.ops.values().flat_map(|v| v.iter()).filter(|(o, _, _)| o == op).map(|(_, _, c)| *c).sum();
             if *n < total {
